@@ -100,17 +100,19 @@ Definition ma_policy (ma : bytes) : option bytes :=
 
 (* ---------------- cases ---------------- *)
 Inductive icase :=
-| KTx (tx body_direct id_body id_tx : bytes)
-      (* tx = Transaction.to_cbor(); body_direct = tx.transaction_body.to_cbor(); ids of body and tx *)
+| KTx (tx body_direct id_body : bytes) (ids : list bytes)
+      (* tx = Transaction.to_cbor(); body_direct = tx.transaction_body.to_cbor(); id_body = body.id;
+         ids = the same identifier obtained the other ways (tx.id, body.hash()) *)
 | KDatum (canon : bool) (ws outb : bytes) (direct : option bytes) (id : bytes)
       (* ws = TransactionWitnessSet(plutus_data=[d]).to_cbor(); outb = output with inline datum d;
          direct = d.to_cbor() when d has one; id = datum_hash(d); canon = false: d is a RawCBOR whose
          bytes are not in shortest form (then the AST-level model is not applicable, only the bytes) *)
 | KAux (tx direct id : bytes)
       (* tx = Transaction(body, ws, True, aux).to_cbor(); direct = aux.to_cbor(); id = aux.hash() *)
-| KBuild (aux_in : option bytes) (tx : bytes)
-      (* aux_in = builder.auxiliary_data.to_cbor() before building; tx = build_and_sign(...).to_cbor() *)
-| KKey (ext : bool) (payload cb id nx_payload nx_id : bytes)
+| KBuild (aux_in : option bytes) (tx id_tx : bytes)
+      (* aux_in = builder.auxiliary_data.to_cbor() before building; tx = build_and_sign(...).to_cbor(); id_tx = tx.id *)
+| KKey (ext : bool) (payload cb id nx_payload nx_id : bytes) (ids : list bytes)
+      (* ids = the hash obtained the other ways (key derived from a signing key, key restored from its CBOR) *)
 | KNative (s : nscript) (cb id id_sh ws outb ma : bytes)
 | KPlutus (v : pver) (sb id id_psh id_raw ws outb ma : bytes)
 | KAddr (m : mscript) (net : N) (st : stake_part) (addr : bytes) (bech : string)
@@ -153,10 +155,10 @@ Section Judge.
 
   Definition judge (k : icase) : verdict :=
     match k with
-    | KTx tx body_direct id_body id_tx =>
+    | KTx tx body_direct id_body ids =>
         match array_items tx with
         | Some ((b_ast, b_sl) :: _) =>
-            {| v_oracle := bytes_eqb id_body (tx_id H b_sl) && bytes_eqb id_tx id_body;
+            {| v_oracle := bytes_eqb id_body (tx_id H b_sl) && forallb (bytes_eqb id_body) ids;
                v_corr := bytes_eqb b_sl body_direct && bytes_eqb (enc b_ast) b_sl
                          && bytes_eqb id_body (m_id c H (OTxBody b_ast));
                v_need := [(32%nat, b_sl); m_pre c (OTxBody b_ast)] |}
@@ -180,9 +182,9 @@ Section Judge.
                v_need := [(32%nat, a_sl); m_pre c (OAux a_ast)] |}
         | _ => bad
         end
-    | KBuild aux_in tx =>
+    | KBuild aux_in tx id_tx =>
         match array_items tx with
-        | Some [(CM kvs, _); _; _; (a_ast, a_sl)] =>
+        | Some [(CM kvs, b_sl); _; _; (a_ast, a_sl)] =>
             let field := match find_key 7 kvs with Some (CB h) => Some (Some h) | None => Some None | _ => None end in
             let shipped := if bytes_eqb a_sl [xf6] then None else Some a_sl in
             let aux_ast := match aux_in with Some b => match decode b with Some a => Some (Some a) | None => None end
@@ -191,18 +193,22 @@ Section Judge.
             | Some fld, Some aa =>
                 {| v_oracle := match shipped with
                                | Some sl => opt_bytes_eqb fld (Some (H 32%nat sl))
-                               | None => opt_bytes_eqb fld None end;
+                               | None => opt_bytes_eqb fld None end
+                               && bytes_eqb id_tx (tx_id H b_sl);
                    v_corr := opt_bytes_eqb fld (b_aux_field (m_build c H aa))
+                             && bytes_eqb id_tx (H (c_tx_size c) b_sl)
                              && opt_bytes_eqb shipped (option_map enc (b_aux_shipped (m_build c H aa)))
                              && opt_bytes_eqb aux_in (option_map enc aa);
-                   v_need := (match shipped with Some sl => [(32%nat, sl)] | None => [] end)
+                   v_need := [(32%nat, b_sl); (c_tx_size c, b_sl)]
+                             ++ (match shipped with Some sl => [(32%nat, sl)] | None => [] end)
                              ++ (match aa with Some a => [m_pre c (OAux a)] | None => [] end) |}
             | _, _ => bad
             end
         | _ => bad
         end
-    | KKey ext payload cb id nx_payload nx_id =>
+    | KKey ext payload cb id nx_payload nx_id ids =>
         {| v_oracle := bytes_eqb id (key_hash H payload) && bytes_eqb cb (enc (CB payload))
+                       && forallb (bytes_eqb id) ids
                        && Nat.eqb (length payload) (if ext then 64 else 32)
                        && bytes_eqb nx_payload (firstn 32 payload) && bytes_eqb nx_id id;
            v_corr := if ext
